@@ -211,3 +211,64 @@ mod verif_format_string {
         assert!(unsafe { dst[k].assume_init() } == want[k]);
     }
 }
+
+// C09 bounded stand-in: the in-place decoder over the padded buffer, as a black box against a reference decoder
+#[cfg(kani)]
+mod verif_inplace {
+    use super::*;
+
+    /// reference over the alphabet { a " \ n 0x01 }: (offset after the closing quote, decoded length) or None
+    fn ref_decode(s: &[u8], out: &mut [u8; 16]) -> Option<(usize, usize)> {
+        let mut n = 0;
+        let mut i = 0;
+        while i < s.len() {
+            let c = s[i];
+            if c == b'"' { return Some((i + 1, n)); }
+            if c < 0x20 { return None; }
+            if c == b'\\' {
+                if i + 1 >= s.len() { return None; }
+                let d = s[i + 1];
+                let v = if d == b'n' { b'\n' } else if d == b'\\' { b'\\' } else if d == b'"' { b'"' } else { return None; };
+                out[n] = v; n += 1; i += 2;
+            } else { out[n] = c; n += 1; i += 1; }
+        }
+        None
+    }
+
+    /// parse_string_inplace on every literal body of 7 symbolic bytes over { a " \ n 0x01 } followed by the DOM's
+    /// 64-byte padding `x"x\0…`: accepted iff the reference accepts it (raw control bytes, bad escapes rejected),
+    /// `src` ends just after the closing quote, and the compacted bytes are the decoded text. All reads/writes stay
+    /// inside the 7 + 64 byte buffer (CBMC pointer checks). Bounded stand-in (7 bytes: one SIMD block incl. padding).
+    #[kani::proof]
+    #[kani::unwind(40)]
+    #[kani::stub(std::arch::x86_64::_mm_max_epu8, crate::util::verif_models::mm_max_epu8)]
+    fn parse_string_inplace_short() {
+        let body: [u8; 7] = kani::any();
+        let mut i = 0;
+        while i < 7 {
+            kani::assume(body[i] == b'a' || body[i] == b'"' || body[i] == b'\\' || body[i] == b'n' || body[i] == 0x01);
+            i += 1;
+        }
+        let mut buf = [0u8; 7 + 64];
+        let mut k = 0;
+        while k < 7 { buf[k] = body[k]; k += 1; }
+        buf[7] = b'x'; buf[8] = b'"'; buf[9] = b'x';
+        let orig = buf;
+        let mut want = [0u8; 16];
+        let w = ref_decode(&orig[..10], &mut want);
+        let start = buf.as_mut_ptr();
+        let mut src = start;
+        let r = unsafe { parse_string_inplace(&mut src, false) };
+        match r {
+            Ok(n) => {
+                let (end, wn) = match w { Some(x) => x, None => { assert!(false); return; } };
+                assert!(n == wn);
+                assert!(unsafe { src.offset_from(start) } as usize == end);
+                let j: usize = kani::any();
+                kani::assume(j < n);
+                assert!(buf[j] == want[j]);
+            }
+            Err(_) => assert!(w.is_none()),
+        }
+    }
+}
